@@ -52,12 +52,23 @@ def scenario_fingerprint(scn):
     return hashlib.sha256(json.dumps(fp, sort_keys=True).encode()).hexdigest()
 
 
+class GenerationHangs(Exception):
+    pass
+
+
 def build_scenario(src):
     import nasim
+    from .budget import BudgetExceeded, guarded_generate
     if src["kind"] == "gen":
-        return nasim.generate_scenario(**src["params"])
+        try:
+            return guarded_generate(lambda: nasim.generate_scenario(**src["params"]))
+        except BudgetExceeded:
+            raise GenerationHangs("generate_scenario did not return within the line budget (C15)")
     if src["kind"] == "bench":
-        return nasim.make_benchmark_scenario(src["name"], src["seed"])
+        try:
+            return guarded_generate(lambda: nasim.make_benchmark_scenario(src["name"], src["seed"]))
+        except BudgetExceeded:
+            raise GenerationHangs("make_benchmark_scenario did not return within the line budget (C15)")
     if src["kind"] == "shipped":
         return nasim.load_scenario(sources.shipped_path(src["name"]))
     if src["kind"] == "doc":
@@ -278,6 +289,10 @@ def main(tier, replay=None):
                 first.append(h1)
                 second.append(h2)
                 chance_steps.append(ch)
+        except GenerationHangs as e:
+            first.append(f"ERROR {e}")
+            second.append(first[-1])
+            chance_steps.append(0)
         except Exception as e:
             inside, where = engine.from_nasim(sys.exc_info()[2])
             if not inside:
@@ -287,8 +302,16 @@ def main(tier, replay=None):
             chance_steps.append(0)
     # subprocesses, one per hash seed (in parallel)
     from concurrent.futures import ThreadPoolExecutor
+    okidx = [i for i in range(len(jobs)) if not str(first[i]).startswith("ERROR")]
+    okjobs = [jobs[i] for i in okidx]
     with ThreadPoolExecutor(max_workers=min(8, len(hashseeds))) as ex:
-        results = list(ex.map(lambda hs: run_worker(jobs, hs), hashseeds))
+        partial = list(ex.map(lambda hs: run_worker(okjobs, hs), hashseeds))
+    results = []
+    for res in partial:
+        full = [None] * len(jobs)
+        for i, r in zip(okidx, res):
+            full[i] = r
+        results.append(full)
     for i, j in enumerate(jobs):
         rep.evaluated()
         kind = "generation" if j["what"] == "fp" else "trajectory"
